@@ -160,8 +160,23 @@ def triple_for_callee(repo: Repo, ff: FuncFlow, call: ast.Call, triples: List[Tr
   elif isinstance(f, ast.Attribute):
     # self._train_each_client(...)  /  trainer.train_per_client_params(...)
     r = ff.resolve(f)
+    ci = None
     if r.kind == 'attr' and r.base is not None and r.base.kind == 'class':
       ci = r.base.cls
+    elif r.kind == 'func' and r.base is not None and r.base.kind == 'class':
+      # a method that forwards to the generator: `yield from self._train_each_client(...)`
+      ci = r.base.cls
+    elif r.kind == 'attr' and r.base is not None and r.base.kind == 'param':
+      # receiver typed by its annotation
+      sc = r.base.scope
+      if sc is not None and sc.kind == 'function':
+        owner = sc.module.funcs_by_node[sc.node]
+        ann = owner.param_annotation(r.base.name)
+        if ann is not None:
+          ar = repo.resolve(sc, ann)
+          if ar.kind == 'class':
+            ci = ar.cls
+    if ci is not None:
       for t in triples:
         if t.owner.scope.parent is not None and t.owner.scope.parent.node is ci.node:
           cands.append(t)
